@@ -72,7 +72,13 @@ impl Pt {
     /// the k-th entry (k >= 1) of the point's update script: (numeric value, bytes, flags, time)
     fn script(self, k: u64) -> (f64, Vec<u8>, u8, u64) {
         let flags = if k % 3 == 0 { 0x05 } else { 0x01 };
-        let time = 10_000 * (self as u64 + 1) + k * 10;
+        // binary and double-bit events are reported with relative times (g2v3 / g4v3): their
+        // time stamps run *backwards* from update to update (a device clock that was set back),
+        // and a later-updated point can carry an earlier time than the one before it
+        let time = match self {
+            Pt::Binary0 | Pt::Binary1 | Pt::Double0 => 10_000 * (self as u64 + 1) + 5_000 - k * 10,
+            _ => 10_000 * (self as u64 + 1) + k * 10,
+        };
         let v = match self {
             Pt::Binary0 | Pt::Binary1 | Pt::BoStatus0 => (k % 2) as f64,
             Pt::Double0 => (1 + k % 2) as f64,
@@ -86,9 +92,9 @@ impl Pt {
 }
 
 fn add_points(db: &mut Database) {
-    db.add(0, Some(Pt::Binary0.class()), BinaryInputConfig::new(StaticBinaryInputVariation::Group1Var2, EventBinaryInputVariation::Group2Var2));
-    db.add(1, Some(Pt::Binary1.class()), BinaryInputConfig::new(StaticBinaryInputVariation::Group1Var1, EventBinaryInputVariation::Group2Var2));
-    db.add(0, Some(Pt::Double0.class()), DoubleBitBinaryInputConfig::new(StaticDoubleBitBinaryInputVariation::Group3Var2, EventDoubleBitBinaryInputVariation::Group4Var2));
+    db.add(0, Some(Pt::Binary0.class()), BinaryInputConfig::new(StaticBinaryInputVariation::Group1Var2, EventBinaryInputVariation::Group2Var3));
+    db.add(1, Some(Pt::Binary1.class()), BinaryInputConfig::new(StaticBinaryInputVariation::Group1Var1, EventBinaryInputVariation::Group2Var3));
+    db.add(0, Some(Pt::Double0.class()), DoubleBitBinaryInputConfig::new(StaticDoubleBitBinaryInputVariation::Group3Var2, EventDoubleBitBinaryInputVariation::Group4Var3));
     db.add(0, Some(Pt::BoStatus0.class()), BinaryOutputStatusConfig::new(StaticBinaryOutputStatusVariation::Group10Var2, EventBinaryOutputStatusVariation::Group11Var2));
     db.add(0, Some(Pt::Counter0.class()), CounterConfig::new(StaticCounterVariation::Group20Var1, EventCounterVariation::Group22Var5, 0));
     db.add(0, Some(Pt::Frozen0.class()), FrozenCounterConfig::new(StaticFrozenCounterVariation::Group21Var1, EventFrozenCounterVariation::Group23Var5, 0));
@@ -126,6 +132,9 @@ enum Dev {
     Operate,
     /// nothing is forwarded while the clock advances to the next timer (network stall)
     Stall,
+    /// the connection dies on the master's side only; the outstation's session is replaced by
+    /// the next connection (half-open TCP connection)
+    HalfOpen,
 }
 
 #[derive(Copy, Clone, Debug)]
@@ -251,6 +260,10 @@ impl Scenario for C02 {
                 Dev::Cut => {
                     deviations += 1;
                     pair.cut();
+                }
+                Dev::HalfOpen => {
+                    deviations += 1;
+                    pair.half_open();
                 }
                 Dev::M2oFirstByte => {
                     deviations += 1;
@@ -425,7 +438,7 @@ impl Scenario for C02 {
 }
 
 fn alphabet(tier: &str) -> Vec<Dev> {
-    let mut v = vec![Dev::Default, Dev::Upd(Pt::Binary0), Dev::Upd(Pt::Analog0), Dev::Cut, Dev::O2mFirstByte, Dev::Stall, Dev::Upd(Pt::Counter0), Dev::Upd(Pt::Octets0), Dev::M2oFirstByte, Dev::O2mSplit(10), Dev::Operate];
+    let mut v = vec![Dev::Default, Dev::Upd(Pt::Binary0), Dev::Upd(Pt::Analog0), Dev::Cut, Dev::HalfOpen, Dev::O2mFirstByte, Dev::Stall, Dev::Upd(Pt::Counter0), Dev::Upd(Pt::Octets0), Dev::M2oFirstByte, Dev::O2mSplit(10), Dev::Operate];
     if tier != "quick" {
         v.extend([Dev::Upd(Pt::Binary1), Dev::Upd(Pt::Double0), Dev::Upd(Pt::BoStatus0), Dev::Upd(Pt::Frozen0), Dev::Upd(Pt::AoStatus0), Dev::O2mSplit(11), Dev::O2mSplit(292)]);
     }
